@@ -29,7 +29,7 @@ META: Dict[str, Any] = {
     "pools": [{"backend": "c", "import_strict": True}, {"backend": "c", "import_strict": False},
               {"backend": "py", "import_strict": True}, {"backend": "py", "import_strict": False}],
     "tiers": {
-        "quick": {"runs": 5000, "chunk": 40, "wall": 75, "chunk_wall": 400},
+        "quick": {"runs": 4000, "chunk": 40, "wall": 75, "chunk_wall": 400},
         "thorough": {"runs": 120000, "chunk": 40, "wall": 1200, "chunk_wall": 900},
     },
     "selftest_runs": 4,
@@ -339,7 +339,10 @@ def build_ops() -> None:
         lst = []
         for svc in layer.services:
             for co, kind in [(svc.request, "rq")] + [(x, "rs") for x in svc.positive_responses]:
-                prefix = bytes(co.coded_const_prefix())
+                try:
+                    prefix = bytes(co.coded_const_prefix())
+                except Exception:  # noqa: BLE001 - strict mode rejects the description itself
+                    prefix = bytes([0x31 if kind == "rq" else 0x71])
                 for tail in (b"", b"\x41\x42", b"\x12\x34\x41\x00", b"\xc3\x28\x00\x00\x00\x00\x00\x00\x00"):
                     h = (prefix + tail).hex()
                     lst.append(["dec", "bad:0", "C", h, None, [svc.short_name, co.short_name]])
@@ -542,6 +545,14 @@ def strict_failure_site(op: List[Any], sl: List[Any], exc_mod) -> str:
     return ",".join(sorted(sites)) or "none"
 
 
+def outcome_class(o: str) -> str:
+    """'ok' or '<exception type>@<raising site>' of a canonical outcome string."""
+    j = json.loads(o)
+    if j[0] == "ok":
+        return "ok"
+    return f"{j[1].get('exc')}@{j[1].get('site')}"
+
+
 def outcome_str(o: Tuple[str, Any]) -> str:
     return json.dumps([o[0], o[1]], sort_keys=True, default=str)
 
@@ -668,7 +679,8 @@ def execute(trace: Dict[str, Any]) -> Dict[str, Any]:
                         log.ev("app", "op", {"i": i, "v": v0, "outcome": h64(got)})
                         if got != ref[k][v0]:
                             violations.append({
-                                "oracle": "C17.O2-history-independence", "sig": {"kind": op[0], "v": v0},
+                                "oracle": "C17.O2-history-independence",
+                                "sig": {"kind": op[0], "v": v0, "ref": outcome_class(ref[k][v0]), "now": outcome_class(got)},
                                 "detail": {"op": op, "flag": v0, "index": i, "reference": ref[k][v0][:300],
                                            "in_history": got[:300]}})
                     else:
@@ -683,7 +695,8 @@ def execute(trace: Dict[str, Any]) -> Dict[str, Any]:
                         mon.disarm()
                         if o != ref[k][v]:
                             violations.append({
-                                "oracle": "C17.O2-history-independence", "sig": {"kind": op[0], "v": v},
+                                "oracle": "C17.O2-history-independence",
+                                "sig": {"kind": op[0], "v": v, "ref": outcome_class(ref[k][v]), "now": outcome_class(o)},
                                 "detail": {"op": op, "flag": v, "index": "after-history", "reference": ref[k][v][:300],
                                            "in_history": o[:300]}})
     except HangVerdict:
